@@ -117,6 +117,14 @@ func runUndelegate(ctx *action.Context, tx action.RawTx) (bool, action.Response)
 	}
 
 	undelegateCoin := ud.Amount.ToCoin(ctx.Currencies)
+	// an unknown currency gives the zero Coin (coin arithmetic on it exits the process) and a
+	// negative amount would raise the active delegation and leave a negative pending entry
+	if !undelegateCoin.IsValid() {
+		return helpers.LogAndReturnFalse(ctx.Logger, action.ErrInvalidAmount, ud.Tags(), errors.New("Coin is not valid"))
+	}
+	if undelegateCoin.Currency.Name != "OLT" {
+		return helpers.LogAndReturnFalse(ctx.Logger, action.ErrInvalidCurrency, ud.Tags(), errors.New("currency is not OLT"))
+	}
 	// cut the amount from active store
 	remainCoin, err := delegationCoin.Minus(undelegateCoin)
 	if err != nil {
